@@ -24,8 +24,20 @@ def install(save):
     o_pdoms = save(T, "_post_doms")
     o_idoms = save(T, "_imm_doms")
 
+    def _raised(name, self, e):
+        # these queries have no precondition: an exception is an answer that
+        # the definition does not prescribe
+        if isinstance(e, Exception) and not isinstance(e, RecursionError):
+            from ..attach import exc_key
+            k = exc_key(e)
+            core.CTX.violation("C13", f"{name}_raised:{k['type']}", k)
+
     def compute_scc(self):
-        r = o_scc(self)
+        try:
+            r = o_scc(self)
+        except BaseException as e:
+            _raised("compute_scc", self, e)
+            raise
         ctx = core.CTX
         if _small(self):
             ctx.hit("M-query.compute_scc")
@@ -67,7 +79,11 @@ def install(save):
     def find_exiting_and_exits(self, subgraph):
         ctx = core.CTX
         sub = set(subgraph)
-        r = o_ee(self, subgraph)
+        try:
+            r = o_ee(self, subgraph)
+        except BaseException as e:
+            _raised("find_exiting_and_exits", self, e)
+            raise
         if _small(self):
             ctx.hit("M-query.find_exiting_and_exits")
             run_oracle(ctx, "C13.exiting_exits", Q.cmp_exiting_exits, self, sub, r)
@@ -75,7 +91,11 @@ def install(save):
 
     def is_reachable_dfs(self, begin, end):
         ctx = core.CTX
-        r = o_reach(self, begin, end)
+        try:
+            r = o_reach(self, begin, end)
+        except BaseException as e:
+            _raised("is_reachable_dfs", self, e)
+            raise
         if _small(self):
             ctx.hit("M-query.is_reachable_dfs")
             run_oracle(ctx, "C13.reachable", Q.cmp_reachable, self, begin, end, r)
